@@ -13,6 +13,8 @@ package main
 import (
 	"fmt"
 	"go/ast"
+	"go/constant"
+	"math/big"
 	"go/parser"
 	"go/token"
 	"go/types"
@@ -124,6 +126,9 @@ type target struct {
 	CtxCalls map[string]ctxCall
 	// IntLit: `x := 0` declares a Go int (Z), as the language says; off for the older targets whose literals are all unsigned
 	IntLit bool
+	// PtrRecv: methods whose pointer receiver may be nil (rendered as option); the other methods of the file are translated
+	// for a non-nil receiver (Go would panic on the first field read otherwise)
+	PtrRecv []string
 }
 
 type extraSrc struct {
@@ -185,6 +190,22 @@ var targets = []target{
 				Rets: []ty{{k: kOpt, sub: []ty{{k: kStruct, name: "CertificateHeader"}}}, {k: kErr}}},
 		},
 		Funcs: []string{"baseFlow.getLastSentBlockAndRetryCount", "baseFlow.getNextHeightAndPreviousLER"}},
+	{File: "aggsender/types/certificate_build_params.go", Out: "GenBuildParams.v",
+		Module: "aggsender/types/certificate_build_params.go (Range, NumberOfBridges/Claims/Blocks, EstimatedSize, IsEmpty, IsARetry, MaxDepositCount)",
+		IntLit: true,
+		Structs: []string{"Bridge", "Claim", "CertificateHeader", "CertificateBuildParams"},
+		StructsFrom: map[string]string{"Bridge": "bridgesync/processor.go", "Claim": "bridgesync/processor.go", "CertificateHeader": "aggsender/types/types.go"},
+		StructFields: map[string][]string{
+			"Bridge": {"BlockNum", "Metadata", "DepositCount"}, "Claim": {"BlockNum", "Metadata"}, "CertificateHeader": {"Height"},
+			"CertificateBuildParams": {"FromBlock", "ToBlock", "Bridges", "Claims", "RetryCount", "LastSentCertificate", "CertificateType"}},
+		IntTypes: []string{"CertificateType"},
+		Extra: []extraSrc{{File: "common/common.go", Alias: "aggkitcommon"}, {File: "agglayer/types/types.go", Alias: "agglayertypes"},
+			{File: "aggsender/types/types.go", Alias: ""}},
+		PtrRecv: []string{"CertificateBuildParams.NumberOfBridges", "CertificateBuildParams.NumberOfClaims", "CertificateBuildParams.NumberOfBlocks",
+			"CertificateBuildParams.EstimatedSize", "CertificateBuildParams.IsEmpty", "CertificateBuildParams.IsARetry", "CertificateBuildParams.MaxDepositCount"},
+		Funcs: []string{"CertificateBuildParams.Range", "CertificateBuildParams.NumberOfBridges", "CertificateBuildParams.NumberOfClaims",
+			"CertificateBuildParams.NumberOfBlocks", "CertificateBuildParams.EstimatedSize", "CertificateBuildParams.IsEmpty",
+			"CertificateBuildParams.IsARetry", "CertificateBuildParams.MaxDepositCount"}},
 	{File: "aggsender/types/block_range.go", Out: "GenBlockRange.v", Module: "aggsender/types/block_range.go",
 		Structs: []string{"BlockRange"},
 		Funcs:   []string{"getBlockMinusOne", "BlockRange.CountBlocks", "BlockRange.IsEmpty", "BlockRange.Gap"}},
@@ -207,6 +228,8 @@ type tr struct {
 	ctxOrder []string
 	errs     []string
 	funcFile map[string]*ast.File // translated function key -> the file it is declared in (Extra sources)
+	cvals    map[string]constant.Value
+	recvOpt  map[string]bool // translated function name -> its receiver is an option
 }
 
 func (t *tr) fail(n ast.Node, format string, a ...any) {
@@ -221,7 +244,7 @@ func goType(e ast.Expr, structs map[string]*structDef) ty {
 	switch v := e.(type) {
 	case *ast.Ident:
 		switch v.Name {
-		case "uint64", "uint", "uint32", "uint16", "uint8":
+		case "uint64", "uint", "uint32", "uint16", "uint8", "byte":
 			return ty{k: kInt}
 		case "int", "int64":
 			return ty{k: kZ}
@@ -414,7 +437,10 @@ func (t *tr) expr(e ast.Expr, en *env) (string, ty) {
 			t.fail(v, "index into a non-list")
 			return "?", ty{k: kUnknown}
 		}
-		return "(list_get " + zero(at.sub[0]) + " " + a + " " + i + ")", at.sub[0]
+		if _, it := t.expr(v.Index, en); it.k == kZ {
+			i = "(Z.to_N " + i + ")"
+		}
+		return "(list_get " + t.zeroOf(at.sub[0]) + " " + a + " " + i + ")", at.sub[0]
 	case *ast.UnaryExpr:
 		switch v.Op {
 		case token.NOT:
@@ -539,6 +565,15 @@ func (t *tr) composite(v *ast.CompositeLit, en *env) (string, ty) {
 				t.fail(el, "positional composite literal")
 				continue
 			}
+			inView := false
+			for _, f := range sd.fields {
+				if f.name == kv.Key.(*ast.Ident).Name {
+					inView = true
+				}
+			}
+			if !inView { // a field outside the record's view: not modelled
+				continue
+			}
 			c, _ := t.expr(kv.Value, en)
 			vals[kv.Key.(*ast.Ident).Name] = c
 		}
@@ -547,7 +582,7 @@ func (t *tr) composite(v *ast.CompositeLit, en *env) (string, ty) {
 			if c, ok := vals[f.name]; ok {
 				args = append(args, c)
 			} else {
-				args = append(args, zero(f.t))
+				args = append(args, t.zeroOf(f.t))
 			}
 		}
 		return "(mk" + sd.name + " " + strings.Join(args, " ") + ")", ty{k: kStruct, name: sd.name}
@@ -577,6 +612,9 @@ func (t *tr) call(v *ast.CallExpr, en *env) (string, ty) {
 			return "(" + c + " mod 256)", ty{k: kInt}
 		case "uint64", "uint":
 			c, ct := t.expr(v.Args[0], en)
+			if ct.k == kFloat { // truncation toward zero (the value is non-negative and in range where the targets use it)
+				return "(f64_to_u64 " + c + ")", ty{k: kInt}
+			}
 			if ct.k != kInt {
 				t.fail(v, "conversion %s of a non-integer", id.Name)
 			}
@@ -585,14 +623,26 @@ func (t *tr) call(v *ast.CallExpr, en *env) (string, ty) {
 			c, _ := t.expr(v.Args[0], en)
 			return "(u32_of " + c + ")", ty{k: kInt}
 		case "int":
-			c, _ := t.expr(v.Args[0], en)
+			c, ct := t.expr(v.Args[0], en)
+			if ct.k == kZ {
+				return c, ct
+			}
 			return "(go_int " + c + ")", ty{k: kZ}
 		case "float64":
 			c, ct := t.expr(v.Args[0], en)
+			if ct.k == kZ {
+				return "(f64_of_Z " + c + ")", ty{k: kFloat}
+			}
 			if ct.k != kInt {
 				t.fail(v, "float64() of a non-integer")
 			}
 			return "(f64_of_N " + c + ")", ty{k: kFloat}
+		case "len":
+			c, ct := t.expr(v.Args[0], en)
+			if ct.k != kList {
+				t.fail(v, "len of a non-slice")
+			}
+			return "(Z.of_nat (length " + c + "))", ty{k: kZ}
 		}
 	}
 	if chain, ok := selChain(v.Fun); ok {
@@ -666,6 +716,14 @@ func (t *tr) call(v *ast.CallExpr, en *env) (string, ty) {
 				r, _ := t.expr(v.Args[1], en)
 				return "(mkTreeNode (hash2 " + l + " " + r + ") " + l + " " + r + ")", ty{k: kStruct, name: "TreeNode"}
 			}
+		case "make":
+			if len(v.Args) >= 1 {
+				if at := goType(v.Args[0], t.structs); at.k == kList && at.sub[0].k != kUnknown {
+					return "[]", at
+				}
+			}
+			t.fail(v, "make of anything but a slice of a translated type")
+			return "?", ty{k: kUnknown}
 		case "append":
 			if len(v.Args) == 2 {
 				a, at := t.expr(v.Args[0], en)
@@ -728,6 +786,10 @@ func (t *tr) call(v *ast.CallExpr, en *env) (string, ty) {
 			fname = f.Sel.Name
 		} else {
 			xc, xt := t.expr(f.X, en)
+			isOpt := false
+			if xt.k == kOpt && len(xt.sub) == 1 && xt.sub[0].k == kStruct {
+				xt, isOpt = xt.sub[0], true
+			}
 			if !(xt.k == kStruct || (xt.k == kInt && xt.name != "")) {
 				t.fail(v, "method call on a non-record")
 				return "?", ty{k: kUnknown}
@@ -736,6 +798,12 @@ func (t *tr) call(v *ast.CallExpr, en *env) (string, ty) {
 				t.fail(v, "call of method %s.%s (not a translated function)", xt.name, f.Sel.Name)
 			}
 			fname = xt.name + "_" + f.Sel.Name
+			switch {
+			case t.recvOpt[fname] && !isOpt:
+				xc = "(Some " + xc + ")"
+			case !t.recvOpt[fname] && isOpt:
+				t.fail(v, "method %s needs a non-nil receiver, %s may be nil here", fname, xc)
+			}
 			args = append(args, xc)
 		}
 	default:
@@ -753,7 +821,79 @@ func (t *tr) call(v *ast.CallExpr, en *env) (string, ty) {
 	return "(" + fname + " " + strings.Join(args, " ") + ")", rt
 }
 
+// isConst: a literal or a name / qualified name of a loaded constant
+func (t *tr) isConst(e ast.Expr) bool {
+	switch x := e.(type) {
+	case *ast.BasicLit:
+		return true
+	case *ast.Ident:
+		_, ok := t.consts[x.Name]
+		return ok
+	case *ast.SelectorExpr:
+		if chain, ok := selChain(x); ok {
+			_, isC := t.consts[strings.Join(chain, ".")]
+			return isC
+		}
+	}
+	return false
+}
+
+// zeroOf: the zero value of a type, records field by field
+func (t *tr) zeroOf(x ty) string {
+	if x.k == kStruct {
+		if sd, ok := t.structs[x.name]; ok {
+			var args []string
+			for _, f := range sd.fields {
+				args = append(args, t.zeroOf(f.t))
+			}
+			return "(mk" + sd.name + " " + strings.Join(args, " ") + ")"
+		}
+	}
+	if x.k == kFloat {
+		return "(f64_of_N 0)"
+	}
+	return zero(x)
+}
+
+func isNilTest(e ast.Expr, op token.Token) (ast.Expr, bool) {
+	be, ok := e.(*ast.BinaryExpr)
+	if !ok || be.Op != op {
+		return nil, false
+	}
+	if id, ok := be.Y.(*ast.Ident); ok && id.Name == "nil" {
+		return be.X, true
+	}
+	return nil, false
+}
+
 func (t *tr) binary(v *ast.BinaryExpr, en *env) (string, ty) {
+	if v.Op == token.LAND { // p != nil && rest...: the rest is evaluated only below Some (&& associates to the left)
+		var conj []ast.Expr
+		var flat func(e ast.Expr)
+		flat = func(e ast.Expr) {
+			if be, ok := e.(*ast.BinaryExpr); ok && be.Op == token.LAND {
+				flat(be.X)
+				flat(be.Y)
+				return
+			}
+			conj = append(conj, e)
+		}
+		flat(v)
+		if px, ok := isNilTest(conj[0], token.NEQ); ok && len(conj) > 1 {
+			if id, ok := px.(*ast.Ident); ok {
+				if pt := en.vars[id.Name]; pt.k == kOpt && pt.sub[0].k == kStruct {
+					ben := en.clone()
+					ben.vars[id.Name] = pt.sub[0]
+					restE := conj[1]
+					for _, c := range conj[2:] {
+						restE = &ast.BinaryExpr{X: restE, Op: token.LAND, Y: c}
+					}
+					rest, _ := t.expr(restE, ben)
+					return "(match " + id.Name + " with None => false | Some " + id.Name + " => " + rest + " end)", ty{k: kBool}
+				}
+			}
+		}
+	}
 	a, at := t.expr(v.X, en)
 	b, bt := t.expr(v.Y, en)
 	if at.k == kErr && (v.Op == token.NEQ || v.Op == token.EQL) { // err != nil / err == nil
@@ -762,6 +902,27 @@ func (t *tr) binary(v *ast.BinaryExpr, en *env) (string, ty) {
 				return "(negb (err_eqb " + a + " EOK))", ty{k: kBool}
 			}
 			return "(err_eqb " + a + " EOK)", ty{k: kBool}
+		}
+	}
+	if at.k == kOpt && (v.Op == token.NEQ || v.Op == token.EQL) {
+		if id, ok := v.Y.(*ast.Ident); ok && id.Name == "nil" {
+			if v.Op == token.NEQ {
+				return "(is_some " + a + ")", ty{k: kBool}
+			}
+			return "(negb (is_some " + a + "))", ty{k: kBool}
+		}
+	}
+	if at.k == kFloat && bt.k == kInt && t.isConst(v.Y) { // an untyped constant next to a float64 is a float64
+		b, bt = "(f64_of_N "+b+")", ty{k: kFloat}
+	}
+	if bt.k == kFloat && at.k == kInt && t.isConst(v.X) {
+		a, at = "(f64_of_N "+a+")", ty{k: kFloat}
+	}
+	if (at.k == kZ && bt.k == kInt && t.isConst(v.Y)) || (bt.k == kZ && at.k == kInt && t.isConst(v.X)) { // named untyped constant next to an int
+		if at.k == kInt {
+			a, at = "(Z.of_N "+a+")", ty{k: kZ}
+		} else if _, lit := v.Y.(*ast.BasicLit); !lit {
+			b, bt = "(Z.of_N "+b+")", ty{k: kZ}
 		}
 	}
 	if at.k == kZ || bt.k == kZ { // an untyped integer constant next to an int is an int
@@ -834,6 +995,8 @@ func (t *tr) binary(v *ast.BinaryExpr, en *env) (string, ty) {
 		}
 	case kFloat:
 		switch v.Op {
+		case token.ADD:
+			return op2("f64_add", kFloat)
 		case token.QUO:
 			return op2("f64_div", kFloat)
 		case token.MUL:
@@ -961,6 +1124,12 @@ func assigned(list []ast.Stmt, acc map[string]bool) {
 			}
 		case *ast.ForStmt:
 			assigned(v.Body.List, acc)
+		case *ast.RangeStmt:
+			assigned(v.Body.List, acc)
+		case *ast.SwitchStmt:
+			for _, c := range v.Body.List {
+				assigned(c.(*ast.CaseClause).Body, acc)
+			}
 		case *ast.IfStmt:
 			assigned(v.Body.List, acc)
 			if eb, ok := v.Else.(*ast.BlockStmt); ok {
@@ -1013,6 +1182,87 @@ func (t *tr) block(list []ast.Stmt, en *env, tail string, ind string) string {
 		return t.block(rest, en, tail, ind)
 	case *ast.ForStmt:
 		return t.forLoop(v, rest, en, tail, ind)
+	case *ast.RangeStmt: // for _, x := range xs { body }: a fold over the elements, the state = the outer variables the body assigns
+		if k, ok := v.Key.(*ast.Ident); !ok || k.Name != "_" || v.Tok != token.DEFINE || v.Value == nil {
+			t.fail(v, "range statement that is not `for _, x := range xs`")
+			return "?"
+		}
+		xs, xt := t.expr(v.X, en)
+		if xt.k != kList {
+			t.fail(v, "range over a non-slice")
+			return "?"
+		}
+		if hasReturn(v.Body.List) {
+			t.fail(v, "return inside a range loop")
+			return "?"
+		}
+		iv := v.Value.(*ast.Ident).Name
+		acc := map[string]bool{}
+		assigned(v.Body.List, acc)
+		var names []string
+		for n := range acc {
+			if _, ok := en.vars[n]; ok && n != iv {
+				names = append(names, n)
+			}
+		}
+		sort.Strings(names)
+		if len(names) == 0 {
+			t.fail(v, "loop without effect on the translated state")
+			return "?"
+		}
+		tup, pat := names[0], names[0]
+		if len(names) > 1 {
+			tup = "(" + strings.Join(names, ", ") + ")"
+			pat = "'" + tup
+		}
+		ben := en.clone()
+		ben.vars[iv] = xt.sub[0]
+		ben.inLoop, ben.loopTup, ben.loopRet = true, tup, false
+		body := t.block(v.Body.List, ben, tup, ind+"    ")
+		return "let " + pat + " :=\n" + ind + "  fold_left (fun " + pat + " " + iv + " =>\n" + ind + "    " + body + ")\n" + ind + "  " + xs + " " + tup + " in\n" + ind + t.block(rest, en, tail, ind)
+	case *ast.SwitchStmt: // switch tag { case a: .. case b: .. default: .. } = the if / else-if chain, cases in source order
+		if v.Init != nil || v.Tag == nil {
+			t.fail(v, "switch without a tag or with an init statement")
+			return "?"
+		}
+		var chain ast.Stmt
+		var deflt []ast.Stmt
+		var clauses []*ast.CaseClause
+		for _, c := range v.Body.List {
+			cc := c.(*ast.CaseClause)
+			if cc.List == nil {
+				deflt = cc.Body
+			} else {
+				clauses = append(clauses, cc)
+			}
+			for _, b := range cc.Body {
+				if br, ok := b.(*ast.BranchStmt); ok && br.Tok == token.FALLTHROUGH {
+					t.fail(v, "fallthrough")
+					return "?"
+				}
+			}
+		}
+		chain = &ast.BlockStmt{List: deflt}
+		for i := len(clauses) - 1; i >= 0; i-- {
+			var cond ast.Expr
+			for _, val := range clauses[i].List {
+				eq := &ast.BinaryExpr{X: v.Tag, Op: token.EQL, Y: val}
+				if cond == nil {
+					cond = eq
+				} else {
+					cond = &ast.BinaryExpr{X: cond, Op: token.LOR, Y: eq}
+				}
+			}
+			chain = &ast.IfStmt{Cond: cond, Body: &ast.BlockStmt{List: clauses[i].Body}, Else: chain}
+		}
+		if is, ok := chain.(*ast.IfStmt); ok {
+			if eb, ok := is.Else.(*ast.IfStmt); ok { // the block() below wants a block in the else position
+				is.Else = &ast.BlockStmt{List: []ast.Stmt{eb}}
+			}
+			fixElse(is)
+			return t.block(append([]ast.Stmt{is}, rest...), en, tail, ind)
+		}
+		return t.block(append(append([]ast.Stmt{}, deflt...), rest...), en, tail, ind)
 	case *ast.ReturnStmt:
 		var parts []string
 		if len(v.Results) == 0 && len(en.named) > 0 { // bare return: the named results
@@ -1026,6 +1276,9 @@ func (t *tr) block(list []ast.Stmt, en *env, tail string, ind string) string {
 			c, ct := t.expr(r, en)
 			if bl, ok := r.(*ast.BasicLit); ok && bl.Kind == token.INT && ct.k == kInt && i < len(en.rets) && en.rets[i].k == kZ {
 				c += "%Z"
+			}
+			if i < len(en.rets) && en.rets[i].k == kOpt && ct.k == kStruct { // a pointer result that is this (non-nil) record
+				c = "(Some " + c + ")"
 			}
 			parts = append(parts, c)
 		}
@@ -1044,6 +1297,18 @@ func (t *tr) block(list []ast.Stmt, en *env, tail string, ind string) string {
 		if len(v.Rhs) != 1 {
 			t.fail(v, "parallel assignment")
 			return "?"
+		}
+		if v.Tok == token.ADD_ASSIGN || v.Tok == token.SUB_ASSIGN || v.Tok == token.MUL_ASSIGN { // x op= e  is  x = x op e
+			op := map[token.Token]token.Token{token.ADD_ASSIGN: token.ADD, token.SUB_ASSIGN: token.SUB, token.MUL_ASSIGN: token.MUL}[v.Tok]
+			v = &ast.AssignStmt{Lhs: v.Lhs, Tok: token.ASSIGN, Rhs: []ast.Expr{&ast.BinaryExpr{X: v.Lhs[0], Op: op, Y: v.Rhs[0]}}}
+		} else if v.Tok != token.ASSIGN && v.Tok != token.DEFINE {
+			t.fail(v, "assignment operator %s", v.Tok)
+			return "?"
+		}
+		if ue, ok := v.Rhs[0].(*ast.UnaryExpr); ok && ue.Op == token.AND && v.Tok == token.DEFINE && len(v.Lhs) == 1 { // p := &T{..}: p is the record
+			if _, isLit := ue.X.(*ast.CompositeLit); isLit {
+				v = &ast.AssignStmt{Lhs: v.Lhs, Tok: token.DEFINE, Rhs: []ast.Expr{ue.X}}
+			}
 		}
 		if oc, ok := t.oracleCall(v.Rhs[0], en); ok && len(v.Lhs) == 2 { // x, err = t.lookup(tx, key)
 			x, ok1 := v.Lhs[0].(*ast.Ident)
@@ -1122,6 +1387,22 @@ func (t *tr) block(list []ast.Stmt, en *env, tail string, ind string) string {
 		if v.Init != nil {
 			t.fail(v, "if with an init statement")
 			return "?"
+		}
+		if be, ok := v.Cond.(*ast.BinaryExpr); ok && be.Op == token.LOR && v.Else == nil && endsWithReturn(v.Body.List) {
+			if px, ok := isNilTest(be.X, token.EQL); ok { // if p == nil || R { return .. }; rest
+				if id, ok := px.(*ast.Ident); ok {
+					if pt := en.vars[id.Name]; pt.k == kOpt && pt.sub[0].k == kStruct {
+						a := t.block(v.Body.List, en.clone(), "", ind+"    ")
+						some := en.clone()
+						some.vars[id.Name] = pt.sub[0]
+						r, _ := t.expr(be.Y, some)
+						a2 := t.block(v.Body.List, some.clone(), "", ind+"      ")
+						b := t.block(rest, some, tail, ind+"      ")
+						return "match " + id.Name + " with\n" + ind + "  | None =>\n" + ind + "    " + a + "\n" + ind + "  | Some " + id.Name + " =>\n" + ind +
+							"    if " + r + " then\n" + ind + "      " + a2 + "\n" + ind + "    else\n" + ind + "      " + b + "\n" + ind + "  end"
+					}
+				}
+			}
 		}
 		if be, ok := v.Cond.(*ast.BinaryExpr); ok && (be.Op == token.EQL || be.Op == token.NEQ) && v.Else == nil && endsWithReturn(v.Body.List) {
 			if nid, ok := be.Y.(*ast.Ident); ok && nid.Name == "nil" {
@@ -1283,8 +1564,63 @@ func (t *tr) packageSlice(name string) []ast.Expr {
 	return nil
 }
 
-// loadIntConsts registers the integer constants of a file (literals, T(literal), iota and its implicit repetition), under their
-// own names and, when alias is not empty, under alias.Name
+// evalConst evaluates a constant expression exactly (go/constant): literals, iota, constants already loaded (own file first,
+// then alias.Name), + - * / << >>, T(x). nil when something is not a known constant.
+func (t *tr) evalConst(e ast.Expr, alias string, iota int) constant.Value {
+	switch x := e.(type) {
+	case *ast.ParenExpr:
+		return t.evalConst(x.X, alias, iota)
+	case *ast.BasicLit:
+		if x.Kind == token.INT || x.Kind == token.FLOAT {
+			return constant.MakeFromLiteral(x.Value, x.Kind, 0)
+		}
+	case *ast.Ident:
+		if x.Name == "iota" {
+			return constant.MakeInt64(int64(iota))
+		}
+		if alias != "" {
+			if v, ok := t.cvals[alias+"."+x.Name]; ok {
+				return v
+			}
+		}
+		if v, ok := t.cvals[x.Name]; ok {
+			return v
+		}
+	case *ast.SelectorExpr:
+		if id, ok := x.X.(*ast.Ident); ok {
+			if v, ok := t.cvals[id.Name+"."+x.Sel.Name]; ok {
+				return v
+			}
+		}
+	case *ast.CallExpr:
+		if len(x.Args) == 1 {
+			return t.evalConst(x.Args[0], alias, iota)
+		}
+	case *ast.BinaryExpr:
+		a, b := t.evalConst(x.X, alias, iota), t.evalConst(x.Y, alias, iota)
+		if a == nil || b == nil {
+			return nil
+		}
+		switch x.Op {
+		case token.SHL, token.SHR:
+			if n, ok := constant.Uint64Val(b); ok && a.Kind() == constant.Int {
+				return constant.Shift(a, x.Op, uint(n))
+			}
+		case token.ADD, token.SUB, token.MUL:
+			return constant.BinaryOp(a, x.Op, b)
+		case token.QUO:
+			if a.Kind() == constant.Int && b.Kind() == constant.Int {
+				return constant.BinaryOp(a, token.QUO_ASSIGN, b)
+			}
+			return constant.BinaryOp(a, token.QUO, b)
+		}
+	}
+	return nil
+}
+
+// loadIntConsts registers the constants of a file that evaluate exactly: integers as N literals, other rationals as the float64
+// nearest to them (f64_ratio num den: the correctly rounded quotient of two exactly representable integers, which is how Go converts
+// an untyped constant to float64); under their own names and, when alias is not empty, under alias.Name
 func (t *tr) loadIntConsts(f *ast.File, alias string) {
 	for _, d := range f.Decls {
 		gd, ok := d.(*ast.GenDecl)
@@ -1304,35 +1640,57 @@ func (t *tr) loadIntConsts(f *ast.File, alias string) {
 				if i >= len(vals) {
 					continue
 				}
-				var e ast.Expr = vals[i]
-				if ce, ok := e.(*ast.CallExpr); ok && len(ce.Args) == 1 {
-					e = ce.Args[0]
+				v := t.evalConst(vals[i], alias, idx)
+				if v == nil {
+					continue
 				}
-				code := ""
-				switch x := e.(type) {
-				case *ast.Ident:
-					if x.Name == "iota" {
-						code = strconv.Itoa(idx)
+				code, ct := "", ty{k: kInt}
+				if v.Kind() == constant.Int {
+					if u, ok := constant.Uint64Val(v); ok {
+						code = strconv.FormatUint(u, 10)
 					}
-				case *ast.BasicLit:
-					if x.Kind == token.INT && len(vs.Values) > 0 {
-						code = x.Value
+				} else if v.Kind() == constant.Float {
+					num, den := constant.Num(v), constant.Denom(v)
+					nu, ok1 := constant.Uint64Val(num)
+					du, ok2 := constant.Uint64Val(den)
+					if ok1 && ok2 && nu < 1<<53 && du < 1<<53 {
+						if du == 1 {
+							code = strconv.FormatUint(nu, 10)
+						} else {
+							code, ct = fmt.Sprintf("(f64_ratio %d %d)", nu, du), ty{k: kFloat}
+						}
 					}
 				}
 				if code == "" {
 					continue
 				}
+				_ = big.NewInt
 				c := struct {
 					code string
 					t    ty
-				}{code, ty{k: kInt}}
+				}{code, ct}
+				if alias != "" {
+					t.cvals[alias+"."+n.Name] = v
+					t.consts[alias+"."+n.Name] = c
+				} else {
+					t.cvals[n.Name] = v
+				}
 				if _, exists := t.consts[n.Name]; !exists {
 					t.consts[n.Name] = c
 				}
-				if alias != "" {
-					t.consts[alias+"."+n.Name] = c
-				}
 			}
+		}
+	}
+}
+
+// fixElse wraps every else-if of a synthetic chain into a block
+func fixElse(is *ast.IfStmt) {
+	if eb, ok := is.Else.(*ast.BlockStmt); ok && len(eb.List) == 1 {
+		if inner, ok := eb.List[0].(*ast.IfStmt); ok {
+			if ie, ok := inner.Else.(*ast.IfStmt); ok {
+				inner.Else = &ast.BlockStmt{List: []ast.Stmt{ie}}
+			}
+			fixElse(inner)
 		}
 	}
 }
@@ -1516,6 +1874,19 @@ func (t *tr) run() string {
 			continue
 		}
 		t.loadIntConsts(ef, ex.Alias)
+		if ex.Alias != "" && len(ex.Funcs) == 0 { // constants only: do not leak the other package's unqualified names
+			for _, d := range ef.Decls {
+				if gd, ok := d.(*ast.GenDecl); ok && gd.Tok == token.CONST {
+					for _, sp := range gd.Specs {
+						for _, n := range sp.(*ast.ValueSpec).Names {
+							if c, ok := t.consts[n.Name]; ok && c.code == t.consts[ex.Alias+"."+n.Name].code {
+								delete(t.consts, n.Name)
+							}
+						}
+					}
+				}
+			}
+		}
 		for _, d := range ef.Decls {
 			fd, ok := d.(*ast.FuncDecl)
 			if !ok || fd.Body == nil || fd.Recv == nil || len(fd.Recv.List) != 1 {
@@ -1637,8 +2008,20 @@ func (t *tr) run() string {
 				en.vars[en.recv] = ty{k: kInt, name: recvType}
 				params = append(params, fmt.Sprintf("(%s : N)", en.recv))
 			} else {
-				en.vars[en.recv] = ty{k: kStruct, name: recvType}
-				params = append(params, fmt.Sprintf("(%s : %s)", en.recv, recvType))
+				isPtr := false
+				for _, k := range t.tg.PtrRecv {
+					if k == key {
+						isPtr = true
+					}
+				}
+				if isPtr {
+					en.vars[en.recv] = ty{k: kOpt, sub: []ty{{k: kStruct, name: recvType}}}
+					params = append(params, fmt.Sprintf("(%s : option %s)", en.recv, recvType))
+					t.recvOpt[t.funcName(recvType, fd.Name.Name)] = true
+				} else {
+					en.vars[en.recv] = ty{k: kStruct, name: recvType}
+					params = append(params, fmt.Sprintf("(%s : %s)", en.recv, recvType))
+				}
 			}
 		}
 		for _, p := range fd.Type.Params.List {
@@ -1792,6 +2175,7 @@ func main() {
 				code string
 				t    ty
 			}{}, rets: map[string]ty{}, ctxVars: map[string]ty{}, funcFile: map[string]*ast.File{}}
+		t.cvals, t.recvOpt = map[string]constant.Value{}, map[string]bool{}
 		curIntTypes = map[string]bool{}
 		for _, n := range tg.IntTypes {
 			curIntTypes[n] = true
